@@ -691,6 +691,9 @@ func runC20(c *Ctx) {
 
 func (s *c20Sess) run(nMut int) {
 	c := s.c
+	panicMu.Lock()
+	panicBase := len(panicSeen) // responses of earlier sessions (hostile requests) are not this world's workload
+	panicMu.Unlock()
 	w := NewWorld(c, s.ch, s.r.Fork(), true, true, true)
 	s.w = w
 	w.must("POST", "repo/"+w.root+"/instance", []byte(`{"typename":"roi","dataname":"roi1"}`))
@@ -713,7 +716,7 @@ func (s *c20Sess) run(nMut int) {
 		}
 	}
 	panicMu.Lock()
-	for _, p := range panicSeen {
+	for _, p := range panicSeen[panicBase:] {
 		c.Report("O", "C20 panic-recovered well-formed "+panicClass(p), "a well-formed request of the model-based workload was answered with a recovered panic", p+"\nworld history:\n"+strings.Join(w.hist, "\n"))
 	}
 	panicMu.Unlock()
